@@ -331,7 +331,7 @@ theorem gen_bls_shape :
     Gen.Bls.PairingCheck_calls = ["new", "acc.SetOne", "len", "ap.IsInfinity", "bp.IsInfinity", "acc.Mul",
       "miller", "finalExponentiation().IsOne", "finalExponentiation"] ∧
     Gen.Bls.PairingCheck_skipsIdentityPairs = true ∧
-    Gen.Codec.pointG2_marshalOrder = ["p.g.x.x", "p.g.x.y", "p.g.y.x", "p.g.y.y"] ∧
+    Gen.Codec.pointG2_marshalOrder = ["pgtemp.x.x", "pgtemp.x.y", "pgtemp.y.x", "pgtemp.y.y"] ∧
     Gen.Codec.pointG1_marshalOrder = ["pgtemp.x", "pgtemp.y"] := by decide
 
 end Dos.Props.C06
